@@ -1,6 +1,6 @@
 SPECIFICATION Spec
 CONSTANTS
-  Req = {r1, r2, r3}
+  Req = {r1, r2}
   Keys = {k1}
   Disp = {d1}
   Purgers = {}
@@ -10,16 +10,16 @@ CONSTANTS
   HfpTTL <- MC_HfpTTL
   Methods = {"GET"}
   TTLs = {1}
-  Outcomes = {"cacheable", "uncacheable", "error"}
-  LoadResults = {}
-  SaveResults = {TRUE}
+  Outcomes = {"cacheable", "uncacheable"}
+  LoadResults = {"ok", "notfound", "error", "cut_s", "cut_r", "cut_c", "badstatus"}
+  SaveResults = {TRUE, FALSE}
   Jumps = {1}
-  MaxTicks = 3
+  MaxTicks = 2
   MaxStarts = 4
   MaxVer = 4
-  MaxEnt = 1
+  MaxEnt = 4
   MaxPurges = 0
-  MaxKills = 0
+  MaxKills = 1
   MaxDrops = 0
   UnnamedPurge = FALSE
   ResumeRelooks = TRUE
@@ -32,5 +32,5 @@ INVARIANTS
   TypeOK
   I_SingleFlight I_BurstCostsOne I_HitServed I_LabelTruth I_OnlyStoredIsShared I_KeyMatch
   I_HitFresh I_AgeTruth I_RefetchAfterExpiry I_HfpPass I_HfpNeverCached I_HfpLapses
-  I_PurgeEffective I_NoOwnError
+  I_PurgeEffective I_BadRecordIsMiss I_NoOwnError
   D_FetchingHasOwner D_OneOwner D_WaitersOnlyWhileFetching D_WaiterAccounted D_NoImmortal D_HitHasResponse D_Resident
